@@ -76,7 +76,25 @@ func execute(t *testing.T, c Case, n int) (rr runResult) {
 		}
 		bubble.Wait()
 		rr.baseline = snap{bubble.Census(), nil}
+		refusedSoFar := 0
 		one := func(i int) (*world.Endpoint, *world.Endpoint, bool) {
+			if c.Closer == "refused" {
+				// a logical connection for a channel the server does not have: it must be refused and
+				// leave nothing behind, on either side
+				app := w.OpenApp("no-such-channel", nil)
+				bubble.Wait()
+				if c.Carrier == "dns" {
+					bubble.Advance(10 * time.Second)
+				}
+				refusedSoFar++
+				if o := app.Obs(); !o.EOF && o.Err == "" {
+					rr.fail, rr.detail = "refused-connection-stays-open", fmt.Sprintf("logical connection %d for an unknown channel was not ended: %v", i, o)
+					return nil, nil, false
+				}
+				app.Close()
+				bubble.Wait()
+				return app, app, true
+			}
 			app := w.OpenApp("x", nil)
 			bubble.Wait()
 			if c.Carrier == "dns" {
@@ -98,6 +116,9 @@ func execute(t *testing.T, c Case, n int) (rr runResult) {
 			return app, tg, true
 		}
 		finish := func(app, tg *world.Endpoint) {
+			if c.Closer == "refused" {
+				return
+			}
 			if c.Closer == "app" {
 				app.Close()
 			} else {
@@ -247,8 +268,11 @@ func cases(_ bool) []Case {
 		}
 		for _, ending := range endings {
 			for _, overlap := range []bool{false, true} {
-				for _, closer := range []string{"app", "target"} {
+				for _, closer := range []string{"app", "target", "refused"} {
 					for _, data := range []int{0, 3000} {
+						if closer == "refused" && (data != 0 || overlap) {
+							continue
+						}
 						out = append(out, Case{carrier, overlap, closer, data, ending})
 					}
 				}
